@@ -102,6 +102,35 @@ CLAIMS = {
         "{-1,0,1} matrix up to 3x3/2x4/4x2 with both presets of the verdict variable, both implemented algorithms, SP preprocessing on/off, "
         "non-ternary inputs, and the unimplemented graph algorithm (must be an error status).",
    technique="Lean 4 theorems about the balancedness definition and violator soundness + exhaustive correspondence", design="5/C17"),
+ "C12": dict(
+   text="Proof: the five composition functions (1-sum, both 2-sum variants, delta-, Y- and 3-sum) are Lean functions with theorems for every "
+        "shape: result dimensions and entry ranges; acceptance iff the shape predicate holds (and the returned matrix identified); "
+        "decompose-then-compose round trips for 2-, delta-, Y- and 3-sums; a 1-sum is TU iff all blocks are; the components of a TU 2-sum are TU "
+        "and the 2-sum of TU components is TU (over GF(3), and over GF(2) for 0/1 operands), in Mathlib's sense. Not proved: TU of delta-, Y- and "
+        "3-sums (in either direction) - tested on the explored domain only. Tie: CMRonesumCompose/CMRtwosumCompose/CMRdeltasumCompose/"
+        "CMRysumCompose/CMRthreesumCompose compared exactly with the model on valid and invalid operand/special-index choices; the library's own "
+        "decomposition sequence (representatives, epsilon, connecting element, DecomposeFirst/Second) run on seeded separations, its components "
+        "validated (shape conditions, TU by the oracle) and recomposed by library and model.",
+   technique="Lean 4 theorems about the k-sum model (shape/rejection/round-trip/2-sum TU) + exact compose correspondence + decompose-recompose validation", design="5/C12"),
+ "C18": dict(
+   text="Partial. Proof: a time-limited computation is modelled as a step list with clock checks; for every program, state and injection point the "
+        "limited run is either a timeout without output or exactly the unlimited result, it is the unlimited result when the injection lies beyond "
+        "the reads performed, and a timeout otherwise. What C18 is about in the C code - the cleanup on each of the 45 'return CMR_ERROR_TIMEOUT' "
+        "exits - is not exhibited by that model: it is decided by fault enumeration. Tie: clock() is interposed; every time-limited op of every "
+        "family is run unlimited, then once per clock read it performs with the limit expiring exactly at that read; each injected run must be "
+        "CMR_ERROR_TIMEOUT with no object handed out, scratch stack restored, nothing leaked (LSan), or the identical unlimited answer; the same "
+        "call repeated afterwards on the same environment must give the unlimited answer. The timeout sites reached are listed in the evidence.",
+   technique="Lean 4 refinement theorem for the abstract limited run + fault enumeration at every clock read of the real code (interposed clock, ASan/LSan)",
+   design="5/C18"),
+ "C19": dict(
+   text="Partial. Proof: on the allocator model every well-bracketed call restores the observable allocator state, so what a later call can see of "
+        "an earlier one is only the (uninitialised) content of the scratch memory, and the model of a recognition function is a pure function of "
+        "its arguments. That no scratch array is read before it is written, and that no other global state exists, is observed, not proved. Tie: "
+        "each op is run on a fresh environment (reference), then on one shared environment with scratch memory pre-filled with 0x00, in shuffled "
+        "order between error/timeout calls with 0xFF fill, three times in a row, and on 8 threads with separate environments under "
+        "ThreadSanitizer; results and certificates must be byte-identical to the reference and inputs unmodified (checksums before/after).",
+   technique="Lean 4 allocator-history theorem + history/fill/thread differential runs of the real library (ASan, TSan)",
+   design="5/C19"),
  "C20": dict(
    text="Proof: Csr.consistent unfolds to the property's clauses; the canonical sparse form of every dense matrix is consistent and round-trips "
         "(toDense (ofDense M) = M); consistent sparse matrices are canonical (toDense injective); algebraic laws of transpose/support/slice at "
@@ -124,7 +153,7 @@ def main():
             "evidence_file": "evidence/%s.json" % pid,
             "replay_cmd_template": "bin/check %s --replay {path}" % pid,
             "engine": "lean4-proof+correspondence",
-            "level_claimed": {"category": "proof", "text": c["text"], "design_ref": "DESIGN.md §" + c["design"]},
+            "level_claimed": {"category": c.get("category", "proof"), "text": c["text"], "design_ref": "DESIGN.md §" + c["design"]},
             "level_note": c.get("note", COMMON_NOTE),
             "technique": c["technique"],
         })
